@@ -55,7 +55,7 @@ Lemma ok_item_mac2 cx ps ex ws name post args fol sp l :
   ok_item2 cx ps ex (Mac2 ws name post args) fol =
   ws_ok ws && ws_ok post && name_ok name post
   && (ok_args2 cx ps args l fol && slots_ok (nabs args) (1 + length name)
-      && mac_follow_ok name post (hd_error (unparse_items2 args ++ fol))).
+      && mac_follow_ok2 name post (unparse_items2 args ++ fol)).
 Proof. intros A B. cbn [ok_item2]. rewrite A, B. reflexivity. Qed.
 
 Lemma node_of_env2 cx ps p0 ws bws name args b tr ews sp l :
@@ -574,6 +574,34 @@ Section Sim.
       cbn [length]. f_equal. f_equal. lia.
   Qed.
 
+  Lemma mac_tok2 q pos ws name post rest : Std cx q ->
+    ws_ok ws = true -> ws_ok post = true -> name_ok name post = true ->
+    mac_follow_ok2 name post rest = true ->
+    skipn pos s = ws ++ 92%N :: name ++ post ++ rest ->
+    impl_peek q s pos
+    = TokOk (mk TkMacro name (pos + length ws) (pos + length ws + 1 + length name + length post) ws post).
+  Proof.
+    intros SQ W Wp NM FO SK'. unfold mac_follow_ok2 in FO. apply orb_true_iff in FO.
+    destruct FO as [FO|FO]; [apply (mac_tok q pos ws name post rest SQ W Wp NM FO SK')|].
+    apply andb_true_iff in FO. destruct FO as [NP PF]. apply negb_true_iff in NP.
+    destruct name as [|c nm]; [discriminate|].
+    destruct (is_alpha c) eqn:AC.
+    - pose proof (std_view_of cx q SQ) as V.
+      destruct (par_follows_split rest PF) as (w' & rest' & -> & Ww & HS & CN).
+      destruct (name_ok_not_env _ _ NM) as [NB NE].
+      cbn [name_ok] in NM. rewrite AC in NM.
+      apply andb_true_iff in NM. destruct NM as [NM _]. apply andb_true_iff in NM. destruct NM as [NA _].
+      cbn [app] in SK'.
+      rewrite (impl_peek_dispatch q s pos ws 92%N _ W SK' space_92).
+      pose proof (skipn_shift _ _ _ _ SK') as SK0.
+      etransitivity;
+        [apply (dispatch_macro_word_par cx q V s (pos + length ws) ws c nm post w' rest' SK0 AC NA
+                  (proj1 (ws_ok_split _ Wp)) NP Ww HS CN NB NE)|].
+      cbn [length]. f_equal. f_equal. lia.
+    - apply (mac_tok q pos ws (c :: nm) post rest SQ W Wp NM); [|exact SK'].
+      cbn [mac_follow_ok]. rewrite AC. reflexivity.
+  Qed.
+
   (** ** one argument *)
   Definition is_abs (a : item2) : bool := match a with Abs2 => true | _ => false end.
   Definition arg_fuel (a : item2) : nat := if is_abs a then 2 else 8 * ilen2 a.
@@ -678,14 +706,14 @@ Section Sim.
         { cbn [unparse_item2 flat_map] in SK. rewrite app_nil_r in SK. rewrite <- !app_assoc in SK. cbn [app] in SK.
           rewrite <- !app_assoc in SK. exact SK. }
         split.
-        * pose proof (mac_tok _ pa ws name post fa (std_no_envs cx aps SDa) WA Wp NM FO SK') as T.
+        * pose proof (mac_tok2 _ pa ws name post fa (std_no_envs cx aps SDa) WA Wp NM FO SK') as T.
           pose proof (rule_texpr_macro s cx 0 aps sp sp true pa name _ _ ws post msp T NB NE GM) as G2.
           pose proof (rule_tstdarg s cx _ aps sp pa _ _ G2) as G3.
           assert (NL : 1 <= length name) by (destruct name; [discriminate|cbn; lia]).
           unfold arg_fuel. cbn [is_abs item_ws2]. rewrite ilen_mac2. cbn [unparse_items2 flat_map length].
           rewrite (lift _ _ _ _ G3); [|discriminate|lia].
           cbn [parse_content]. f_equal. lia.
-        * intros e. rewrite (mac_tok ps pa ws name post fa SD WA Wp NM FO SK'). discriminate.
+        * intros e. rewrite (mac_tok2 ps pa ws name post fa SD WA Wp NM FO SK'). discriminate.
       + (* a specials sequence *)
         destruct chars as [|c cr]; try discriminate. destruct sargs; try discriminate.
         apply andb_true_iff in OKA. destruct OKA as [OKA TS].
@@ -880,16 +908,25 @@ Section Sim.
       cbn [ok_item2] in OKI. apply andb_true_iff in OKI. destruct OKI as [OKI PO].
       apply andb_true_iff in OKI. destruct OKI as [W NT]. apply negb_true_iff in NT.
       destruct post as [|c0 w0].
-      + (* ... that ends with the input *)
-        destruct fol; [|discriminate].
-        assert (SK' : skipn pos s = ws ++ 37%N :: text).
-        { cbn [unparse_item2] in SK. rewrite !app_nil_r in SK. exact SK. }
-        pose proof (skipn_shift _ _ _ _ SK') as SK0.
+      + (* ... that ends with the input, or is followed by a paragraph break *)
         assert (T : impl_peek cps s pos
                     = TokOk (Tokenizer.mk TkComment text (pos + length ws) (pos + length ws + 1 + length text) ws [])).
-        { rewrite (frame_peek1 cx ex cps ps s pos ws 37%N _ F SK' W space_37 (frame_ex_special cx ex cps ps 37%N F eq_refl)).
-          rewrite (impl_peek_dispatch ps s pos ws 37%N _ W SK' space_37).
-          apply (dispatch_comment_eof cx ps V s _ ws text SK0 NT). }
+        { apply orb_true_iff in PO. destruct PO as [PO|PO].
+          - destruct fol; [|discriminate].
+            assert (SK' : skipn pos s = ws ++ 37%N :: text).
+            { cbn [unparse_item2] in SK. rewrite !app_nil_r in SK. exact SK. }
+            pose proof (skipn_shift _ _ _ _ SK') as SK0.
+            rewrite (frame_peek1 cx ex cps ps s pos ws 37%N _ F SK' W space_37 (frame_ex_special cx ex cps ps 37%N F eq_refl)).
+            rewrite (impl_peek_dispatch ps s pos ws 37%N _ W SK' space_37).
+            apply (dispatch_comment_eof cx ps V s _ ws text SK0 NT).
+          - destruct (par_follows_split fol PO) as (w' & rest' & -> & Ww & HS & CN).
+            assert (SK' : skipn pos s = ws ++ 37%N :: text ++ (10%N :: w') ++ rest').
+            { cbn [unparse_item2] in SK. rewrite app_nil_r in SK. rewrite <- ?app_assoc in SK. cbn [app] in SK |- *.
+              rewrite <- ?app_assoc in SK. exact SK. }
+            pose proof (skipn_shift _ _ _ _ SK') as SK0.
+            rewrite (frame_peek1 cx ex cps ps s pos ws 37%N _ F SK' W space_37 (frame_ex_special cx ex cps ps 37%N F eq_refl)).
+            rewrite (impl_peek_dispatch ps s pos ws 37%N _ W SK' space_37).
+            apply (dispatch_comment_par cx ps V s _ ws text w' rest' SK0 NT Ww HS CN). }
         cbn [absorb_item2 item_ws2 node_of2] in H. rewrite ilen_cmt2 in H |- *. cbn [length] in H |- *.
         rewrite !Nat.add_0_r in H.
         apply (lift (S k)); [|exact NR|lia].
@@ -1279,23 +1316,7 @@ Section Sim.
       pose proof (skipn_shift _ _ _ _ SK') as SK0. fold p0 in SK0.
       assert (T : impl_peek cps s pos = TokOk (mk TkMacro name p0 pe ws post)).
       { rewrite (frame_peek1 cx ex cps ps s pos ws 92%N _ F SK' W space_92 (frame_ex_special cx ex cps ps 92%N F eq_refl)).
-        destruct name as [|c nm]; [discriminate|]. cbn [name_ok] in NM. cbn [mac_follow_ok] in FO.
-        cbn [app] in SK', SK0.
-        rewrite (impl_peek_dispatch ps s pos ws 92%N _ W SK' space_92). fold p0.
-        destruct (is_alpha c) eqn:AC.
-        - apply andb_true_iff in NM. destruct NM as [NM NE]. apply andb_true_iff in NM. destruct NM as [NA NB].
-          apply negb_true_iff in NE. apply negb_true_iff in NB.
-          apply andb_true_iff in FO. destruct FO as [F1 F2]. apply negb_true_iff in F1.
-          rewrite (dispatch_macro_word cx ps V s p0 ws c nm post (unparse_items2 args ++ fol) SK0 AC NA Wp
-                     (otest_hd_not _ _ F1)); [| |exact NB|exact NE].
-          + unfold pe. cbn [length]. f_equal. f_equal. lia.
-          + intros ->. apply negb_true_iff in F2. apply otest_hd_not. exact F2.
-        - destruct nm; [|discriminate]. destruct post; [|discriminate].
-          apply negb_true_iff in NM. cbn [mem_c existsb] in NM.
-          repeat (apply orb_false_iff in NM; destruct NM as [? NM]).
-          cbn [app] in SK0 |- *.
-          rewrite (dispatch_macro_sym cx ps V s p0 ws c _ SK0 AC) by assumption.
-          unfold pe. cbn [length]. f_equal. f_equal. lia. }
+        apply (mac_tok2 ps pos ws name post _ SD W Wp NM FO SK'). }
       assert (SKa : skipn pe s = unparse_items2 args ++ fol).
       { change (92%N :: name ++ post ++ unparse_items2 args ++ fol)
           with ([92%N] ++ name ++ post ++ unparse_items2 args ++ fol) in SK0.
